@@ -12,7 +12,10 @@
   arbitrary type `σ`; directories are arbitrary (left-over `.new`/`.bak` files of any kind are
   allowed), histories are of any length.
 
-  Proved, full strength, for the current code (`saveNew` = write `.new`, `os.replace(.new, base)`):
+  Crash semantics = process kill: the write buffer of an open handle is lost, so `write` leaves the
+  file `part` and only `close` (end of the `with` block) makes it `complete` (Model.Autosave).
+
+  Proved, full strength, for the current code (`saveNew` = open `.new`, write, close, `os.replace(.new, base)`):
     * `current_crash_safe`          – `CrashSafe`: if `base` holds snapshot `v` at entry, then in
                                       every crash state of `save_simulation(w)` (before/after each
                                       operation and inside the write) `base` is `complete v` or
@@ -23,14 +26,22 @@
     * `loadable_forever`            – invariant over arbitrary interleavings of completed saves,
                                       crashed saves and restarts: `base` stays `complete`;
     * `save_completes`              – a completed save leaves `base = complete w`, no `.new`.
+  The variant with `os.replace` inside the `with` block (`saveEarlyReplace` = open, write, replace, close):
+    * `earlyReplace_counterexample` – kernel-checked witness: killed after the rename and before the
+                                      flush, `base` is a truncated pickle and the previous snapshot
+                                      exists nowhere;
+    * `earlyReplace_not_crash_safe` – hence `¬ CrashSafe saveEarlyReplace`;
+    * `earlyReplace_completes`      – an undisturbed save ends in the same directory as the current
+                                      code (why normal runs, and crashes that unwind through the `with`
+                                      block, do not show the difference).
   The three-step variant that was in the tree before commit 3262c67 (`saveOld`):
     * `threeStep_counterexample`    – kernel-checked witness: after `rename(base, .bak)` and before
                                       `rename(.new, base)` nothing exists under `base`;
     * `threeStep_not_crash_safe`    – hence `¬ CrashSafe saveOld`;
     * `threeStep_data_not_lost`     – what the old code did guarantee: the previous snapshot is
                                       always complete in `base` or `.bak` (or the new one in `base`).
-  Not modelled: durability of the bytes under power loss (`save_simulation` never calls `fsync`;
-  the model's `write` completes at `close`), other processes touching the directory, Windows
+  Not modelled: durability of the bytes under power loss of the machine (`save_simulation` never calls
+  `fsync`; the model's file is complete at `close`), other processes touching the directory, Windows
   semantics of `os.rename` onto an existing file.
 -/
 import EmuVerif.Proofs.Autosave
@@ -51,7 +62,8 @@ theorem current_crash_safe : CrashSafe (σ := σ) (fun _ w => saveNew w) := by
   intro fs v w hb s hs
   rw [crashStates_saveNew] at hs
   simp only [List.mem_cons, List.mem_nil_iff, or_false] at hs
-  rcases hs with rfl | rfl | rfl | rfl | rfl
+  rcases hs with rfl | rfl | rfl | rfl | rfl | rfl
+  · exact Or.inl hb
   · exact Or.inl hb
   · exact Or.inl hb
   · exact Or.inl hb
@@ -91,10 +103,31 @@ theorem loadable_forever (fs0 : FS σ) (v0 : σ) (h0 : fs0.base = .complete v0) 
     · exact ⟨v, h, load_of_base h⟩
     · exact ⟨w, h, load_of_base h⟩
 
+/-! ### `os.replace` inside the `with` block (rename before the flush) -/
+
+/-- Witness: first autosave (snapshot 1) completed, the process is killed in the second (snapshot 2)
+right after `os.replace(.new, base)` and before the handle is flushed/closed: crash point `b3`. -/
+def earlyCrash : FS Nat := ⟨.part, .absent, .absent⟩
+
+theorem earlyReplace_counterexample :
+    earlyCrash ∈ crashStates (⟨.complete 1, .absent, .absent⟩ : FS Nat) (saveEarlyReplace 2) ∧
+      load earlyCrash = none := by
+  decide
+
+theorem earlyReplace_not_crash_safe : ¬ CrashSafe (σ := Nat) (fun _ w => saveEarlyReplace w) := by
+  intro h
+  have := h ⟨.complete 1, .absent, .absent⟩ 1 2 rfl earlyCrash earlyReplace_counterexample.1
+  revert this
+  decide
+
+theorem earlyReplace_completes (fs : FS σ) (w : σ) :
+    runOps fs (saveEarlyReplace w) = runOps fs (saveNew w) := by
+  simp [saveEarlyReplace, saveNew, runOps, applyOp, FS.set, FS.get, move]
+
 /-! ### The three-step variant (before commit 3262c67) -/
 
 /-- Witness: first autosave (snapshot 1) completed, crash in the second (snapshot 2) right after
-`os.rename(base, .bak)`: crash point `b3` (before operation 3 = `rename(.new, base)`). -/
+`os.rename(base, .bak)`: crash point `b4` (before operation 4 = `rename(.new, base)`). -/
 def witnessFS : FS Nat := ⟨.complete 1, .absent, .absent⟩
 def witnessCrash : FS Nat := ⟨.absent, .complete 2, .complete 1⟩
 
@@ -117,25 +150,31 @@ theorem threeStep_data_not_lost (fs : FS σ) (v w : σ) (hb : fs.base = .complet
   subst hb
   intro s hs
   simp [saveOld, FileSt.present, crashStates, midStates, applyOp, FS.set, FS.get, move] at hs
-  rcases hs with rfl | rfl | rfl | rfl | rfl | rfl | rfl <;> simp
+  rcases hs with rfl | rfl | rfl | rfl | rfl | rfl | rfl | rfl <;> simp
 
 /-! ### Non-vacuity -/
 
 /-- The hypotheses of `autosave_survives_crash` are met by a concrete history, and the crash
 states really differ (old snapshot in four of them, new one in the last). -/
 example : (crashStates (afterSaves (FS.empty : FS Nat) [7, 8]) (saveNew 9)).map (·.base) =
-    [.complete 8, .complete 8, .complete 8, .complete 8, .complete 9] := by decide
+    [.complete 8, .complete 8, .complete 8, .complete 8, .complete 8, .complete 9] := by decide
 
 example : (crashStates (afterSaves (FS.empty : FS Nat) [7, 8]) (saveNew 9)).map (·.new) =
-    [.absent, .part, .part, .complete 9, .absent] := by decide
+    [.absent, .part, .part, .part, .complete 9, .absent] := by decide
 
 /-- `Reach` contains a state with a torn `.new` next to a complete `base`. -/
 example : Reach (⟨.complete 1, .absent, .absent⟩ : FS Nat) ⟨.complete 1, .part, .absent⟩ :=
   Reach.crashed 2 Reach.start (by decide)
 
-/-- The old variant's crash states for the witness: the fifth has no `base`. -/
+/-- The old variant's crash states for the witness: the sixth has no `base`. -/
 example : (crashStates witnessFS (saveOld witnessFS 2)).map (·.base) =
-    [.complete 1, .complete 1, .complete 1, .complete 1, .absent, .complete 2, .complete 2] := by
+    [.complete 1, .complete 1, .complete 1, .complete 1, .complete 1, .absent, .complete 2,
+      .complete 2] := by
+  decide
+
+/-- The early-replace variant's crash states: the fifth has a truncated `base`. -/
+example : (crashStates (⟨.complete 1, .absent, .absent⟩ : FS Nat) (saveEarlyReplace 2)).map (·.base) =
+    [.complete 1, .complete 1, .complete 1, .complete 1, .part, .complete 2] := by
   decide
 
 end EmuVerif.Props.C27
